@@ -1543,6 +1543,32 @@ out:
 
 /* ------------------------------------------------------------------ */
 
+/*
+ * read from inside the error callback: the silent queries over every
+ * calibration slot the container reports at that moment
+ */
+static vnacal_t *g_hook_vcp;
+static void hook_touch(void)
+{
+    vnacal_t *vcp = g_hook_vcp;
+    volatile double sink = 0;
+    if (vcp == NULL)
+	return;
+    int end = vnacal_get_calibration_end(vcp);
+    for (int ci = 0; ci < end && ci < 64; ++ci) {
+	const char *nm = vnacal_get_name(vcp, ci);
+	if (nm == NULL)
+	    continue;
+	sink += (double)strlen(nm);
+	if (vnacal_find_calibration(vcp, nm) != ci)
+	    sink += 1;
+    }
+    const char *fn = vnacal_get_filename(vcp);
+    if (fn != NULL)
+	sink += (double)strlen(fn);
+    (void)sink;
+}
+
 static void run_hist(int tier, const int *ops, int n, vf_result *r)
 {
     static ctx_t c;
@@ -1570,6 +1596,8 @@ static void run_hist(int tier, const int *ops, int n, vf_result *r)
 	vf_fail(r, "create", "vnacal_create failed");
 	return;
     }
+    g_hook_vcp = c.vcp;
+    vf_errfn_hook = hook_touch;
     if (do_alloc(&c, 0) == 0)
 	do_addstd(&c, 0, H_SHORT);
     for (int i = 0; i < n && r->status == VF_OK; ++i) {
@@ -1615,6 +1643,8 @@ static void run_hist(int tier, const int *ops, int n, vf_result *r)
     } else {
 	vf_outcome(r, "initial");
     }
+    vf_errfn_hook = NULL;
+    g_hook_vcp = NULL;
     vnacal_free(c.vcp);
     vf_exec_end(r, mark);
     model_key(&c.m, r);
